@@ -209,6 +209,9 @@ pub struct Scenario {
     /// payments for which an earlier lifetime left a Pending record behind (the first lifetime is then a restart)
     #[serde(default)]
     pub initial_pending: Vec<u8>,
+    /// (index of the listdatastore answer counted over the whole scenario, error code): the state read alone fails
+    #[serde(default)]
+    pub ds_read_faults: Vec<(u8, i32)>,
 }
 
 #[derive(Clone, Copy, Debug, Serialize, Deserialize, PartialEq, Eq, Hash)]
@@ -553,6 +556,8 @@ pub struct Profile {
     pub crashes: bool,
     pub write_faults: bool,
     pub read_faults: bool,
+    /// failing listdatastore answers only (the stored-state read)
+    pub ds_read_faults: bool,
     pub heights: bool,
     pub steps: std::ops::Range<usize>,
     pub mpp_choices: &'static [u64],
@@ -582,6 +587,7 @@ impl Default for Profile {
             crashes: true,
             write_faults: true,
             read_faults: false,
+            ds_read_faults: false,
             heights: true,
             steps: 0..40,
             mpp_choices: &[0, 5, 10, 60, 60, 60, 120],
@@ -922,10 +928,20 @@ pub fn scenario_strategy(prof: Profile) -> BoxedStrategy<Scenario> {
             } else {
                 Just(vec![]).boxed()
             };
+            let dsrf = if prof.ds_read_faults {
+                prop_oneof![
+                    1 => Just(vec![]),
+                    3 => proptest::collection::vec((0u8..5, proptest::sample::select(&[-1i32, 200, 400, -32602][..])), 1..=2),
+                ]
+                .boxed()
+            } else {
+                Just(vec![]).boxed()
+            };
+            let rf = (rf, dsrf);
             let probe = prof.probe;
             let holds = prop_oneof![3 => Just(vec![]), 2 => (0u16..28, 4u16..45).prop_map(|h| vec![h])];
             (Just(cfg), pays, plans, steps, wf, rf, any::<u64>(), Just(start_height), proptest::collection::vec(any::<u16>(), 12), holds).prop_map(
-                move |(cfg, payments, plans, steps, write_faults, read_faults, tokio_seed, start_height, shuffle, hold)| {
+                move |(cfg, payments, plans, steps, write_faults, (read_faults, ds_read_faults), tokio_seed, start_height, shuffle, hold)| {
                     // Known finding of C12 excluded by construction: when amount*ppm exceeds u64 the
                     // plugin's fee test is conservatively false; such amounts (> u64::MAX/ppm msat) are clamped.
                     let mut payments = payments;
@@ -945,7 +961,7 @@ pub fn scenario_strategy(prof: Profile) -> BoxedStrategy<Scenario> {
                             htlcs.swap(i, j);
                         }
                     }
-                    Scenario { cfg, payments, htlcs, steps, write_faults, read_faults, start_height, tokio_seed, c16_profile: false, probe, direct: vec![], initial_parts: vec![], manual_getinfo: false, crash_at: vec![], freeze: None, hold, freeze_polls: false, initial_pending: vec![] }
+                    Scenario { cfg, payments, htlcs, steps, write_faults, read_faults, start_height, tokio_seed, c16_profile: false, probe, direct: vec![], initial_parts: vec![], manual_getinfo: false, crash_at: vec![], freeze: None, hold, freeze_polls: false, initial_pending: vec![], ds_read_faults }
                 },
             )
         })
